@@ -112,3 +112,38 @@ Proof.
   congruence.
 Qed.
 Print Assumptions C10_model_more.
+
+(* Part 4 (RejectProofs.v): two more of the property's defect classes as rejection theorems over the model.
+   "An array range without base": every range of a subordinate ARRAY endpoint the model accepts carries a base (the
+   per-element ranges are derived from it) -- so a start/size or start/end range on such an endpoint is rejected (what
+   seed C10-mut10 broke in the implementation).  "An XY connection without direction": under XY every accepted
+   interface has a coordinate that is its router's plus the unit vector of a direction NAMED by one of the two link
+   edges between them -- a connection without a direction names none. *)
+From FV Require Import Netlist RejectProofs.
+Theorem C10_model_array_needs_base : forall d g c,
+  compile d g = Ok c ->
+  forall x, In x (c_nis c) -> ep_array (cn_ep x) <> None -> ep_is_sbr (cn_ep x) = true ->
+  forall rs, In rs (ep_ranges (cn_ep x)) -> exists r, range_of_spec rs = Ok r /\ r_base r <> None.
+Proof. exact compile_array_needs_base. Qed.
+Print Assumptions C10_model_array_needs_base.
+
+Theorem C10_model_xy_needs_direction : forall d g c,
+  compile d g = Ok c -> d_algo d = XY ->
+  forall x, In x (c_nis c) ->
+  exists tx ty s rx ry k dx dy,
+    cn_id x = IdXY tx ty 0 /\ In s (successors g (cn_name x)) /\ rt_coord_of g s = Some (rx, ry) /\
+    to_coords k = Ok (dx, dy) /\ tx = rx + dx /\ ty = ry + dy /\
+    ((exists e1, find_edge g (cn_name x) s = Some e1 /\ e_dst_dir e1 = Some k) \/
+     (exists e2, find_edge g s (cn_name x) = Some e2 /\ e_src_dir e2 = Some k)).
+Proof. exact compile_xy_needs_direction. Qed.
+Print Assumptions C10_model_xy_needs_direction.
+
+(* non-vacuity: the star example has a subordinate array endpoint with based ranges; a start/size range on it is
+   rejected by the model *)
+From FV Require Import Examples.
+Example C10_array_needs_base_nonvacuous :
+  match (do g <- build (ex_star ID); compile (ex_star ID) g) with
+  | Ok c => existsb (fun x => match ep_array (cn_ep x) with Some _ => ep_is_sbr (cn_ep x) && negb (Nat.eqb (length (ep_ranges (cn_ep x))) 0) | None => false end) (c_nis c)
+  | Err _ => false
+  end = true.
+Proof. vm_compute. reflexivity. Qed.
